@@ -660,7 +660,10 @@ impl Duration {
                 );
 
                 // c. Let roundRecord be ? RoundTimeDuration(duration.[[Days]], norm, roundingIncrement, smallestUnit, roundingMode).
-                let (round_record, _) = norm.round(self.days(), resolved_options)?;
+                // NOTE: The days count as 24 hours each (ToInternalDurationRecordWith24HourDays), so the
+                // rounding is applied to the exact total and not to the time part on its own.
+                let norm = norm.add_days(self.days().as_())?;
+                let (round_record, _) = norm.round(FiniteF64::default(), resolved_options)?;
                 // d. Let normWithDays be ? Add24HourDaysToNormalizedTimeDuration(roundRecord.[[NormalizedDuration]].[[NormalizedTime]],
                 // roundRecord.[[NormalizedDuration]].[[Days]]).
                 let norm_with_days = round_record
